@@ -101,8 +101,9 @@ Fixpoint find_pow10 (fuel : nat) (k : Z) (den : Z) : option Z :=
   | O => None
   | S f => if (10 ^ k) mod den =? 0 then Some k else find_pow10 f (k + 1) den
   end.
-Fixpoint pad_zeros (n : nat) (s : string) : string :=
-  match n with O => s | S n' => if (String.length s <? S n')%nat then pad_zeros n' ("0" +:+ s) else s end.
+Fixpoint zeros (n : nat) : string := match n with O => "" | S n' => String "0"%char (zeros n') end.
+(** left-pads [s] with zeros to width [n] (5007/1000 is "5.007": the fraction digits "7" become "007") *)
+Definition pad_zeros (n : nat) (s : string) : string := zeros (n - String.length s) +:+ s.
 Fixpoint strip_trailing_zeros_aux (l : list ascii) : list ascii :=
   match l with "0"%char :: r => strip_trailing_zeros_aux r | _ => l end.
 Definition show_decimal (q : Q) : option string :=
